@@ -38,7 +38,7 @@ CHECKS.update({
         note='per-event application and preservation of weights/masks/order are scipp.transform_coords (not analysed)', ref='3 C06'),
     'C08': dict(
         level='other', technique='abstract interpretation to linear forms over vector atoms and non-commutative matrix words',
-        text='Static: Q components are the fields of (2pi/lambda)(e_i-e_f); pack/unpack are inverse order-preserving permutations; hkl=inv(R UB)Q/(2pi) so 2pi R UB hkl reduces to Q by word cancellation; UB=U B; the kernels are total (no raising path for well-typed inputs, R6).',
+        text='Static: Q components are the fields of (2pi/lambda)(e_i-e_f); pack/unpack are inverse order-preserving permutations; hkl=inv(R UB)Q/(2pi) so 2pi R UB hkl reduces to Q by word cancellation; UB=U B; the kernels are total (no raising path for well-typed inputs, R6) and compute on unit-carrying variables, not on bare numbers taken out of their operands (R7).',
         note='conditioning (accuracy for ill-conditioned B) is runtime and not decided', ref='3 C08'),
 })
 
@@ -120,15 +120,15 @@ CHECKS.update({
 CHECKS.update({
     'C10': dict(
         level='other', technique='abstract interpretation of the DiskChopper methods on both rotation senses; witness-guided symbolic interpretation (sa/witness.py) of validation, repetition count and pulse expansion over order types',
-        text='Static: the time offset of an angle is (beam_position+phase-theta_rep)/omega (+ one period iff anticlockwise) in float64 without integer unit conversion; open/close use complementary edges by rotation sense and close-open = (end-begin)/|omega|; over every order type of the edges of one and two slits on a grid of angles _check_edges accepts exactly the non-reversed, non-overlapping slit sets (also across top-dead-centre) and construction runs it; frequency ratios are accepted iff integer or inverse integer to 1e-8; the open/close arrays hold exactly one pair per slit and turn for turns -1..n-1 as exact terms; from_disk_chopper shifts every pair by k/f_pulse.',
+        text='Static: the time offset of an angle is (beam_position+phase-theta_rep)/omega (+ one period iff anticlockwise) in float64 without integer unit conversion; open/close use complementary edges by rotation sense and close-open = (end-begin)/|omega|; over every order type of the edges of one and two slits on a grid of angles _check_edges accepts exactly the non-reversed, non-overlapping slit sets (also across top-dead-centre) and construction runs it; frequency ratios are accepted iff integer or inverse integer to 1e-8; the open/close arrays hold exactly one pair per slit and turn for turns -1..n-1 as exact terms; over several source pulses (frequency ratios 1/4..2, both senses) every pair reported by from_disk_chopper is an opening of the rotating disk, none is reported twice and none inside the covered span is missing (found and fixed F16); a second request gives the same answer, also with slit edges in rad.',
         note='that delta_t(theta) describes the physical disk is the documented convention, not derived', ref='8'),
     'C11': dict(
         level='other', technique='witness-guided symbolic interpretation: vertices, windows and distances are symbols with exact rational witness values, comparisons are decided at the witness, reported vertices stay exact terms and are compared with a reference model written from the definition (spec/clip.py); floating-point exactness tags for the interpolation',
-        text='Static: the shear t+d*lambda*m_n/h and its composition law; _chop equals polygon-intersect-half-plane for every order type of 3- and 4-vertex polygons against the cut (both directions; exact terms for generic order types, numerically on the cut); Frame.chop refuses a chopper in front of the frame and otherwise reports exactly the polygons of the reference model for every subframe x window in any window order; FrameSequence.chop is independent of the listing order and __getitem__ propagates the last frame not beyond the distance (also with co-located choppers); the wavelength of an intersection is bit-exactly the endpoint value when both endpoints carry the same wavelength; produced subframes are regular.',
+        text='Static: the shear t+d*lambda*m_n/h and its composition law; _chop equals polygon-intersect-half-plane for every order type of 3- and 4-vertex polygons against the cut (both directions; exact terms for generic order types, numerically on the cut); Frame.chop refuses a chopper in front of the frame and otherwise reports exactly the polygons of the reference model for every subframe x window in any window order; FrameSequence.chop is independent of the listing order, chopping in two calls equals chopping in one, and __getitem__ propagates the last frame not beyond the distance (also with co-located choppers); an intersection vertex carries bit-exactly the window edge as its time and bit-exactly the endpoint wavelength when both endpoints carry the same wavelength; produced subframes are regular.',
         note='rounding of the interpolation for unequal endpoints is not decided; the reference model is trusted', ref='8'),
     'C12': dict(
         level='other', technique='abstract interpretation of the whole SQW builder over an abstract byte file (sa/absio.py: concrete bytes for integers and text, symbolic cells with width and byte order for floats) for a finite set of configurations; independent decoder of the documented layout (spec/sqwfmt.py); the package reader interpreted on the same file',
-        text='Static, finite configuration space enumerated (orders and subsets of builder calls, both byte orders, pixel counts and chunk sizes below/equal/above each other and the row count, 1..3 runs, in memory and through open(), titles from empty to 300 non-ASCII characters): header horace/4.0/SQW/n_dims and byte order found == requested (also by Sqw.open); block table size field right, every block once, order independent of the builder calls, extents contiguous from the table end to EOF; every extent holds a block of the declared type that decodes completely and exactly within it, by the independent decoder and by the package reader.',
+        text='Static, finite configuration space enumerated (orders and subsets of builder calls, both byte orders, pixel counts and chunk sizes below/equal/above each other and the row count, 1..3 runs, in memory and through open(), titles from empty to 300 non-ASCII characters): header horace/4.0/SQW/n_dims and byte order found == requested (also by Sqw.open); block table size field right, every block once, order independent of the builder calls, extents contiguous from the table end to EOF; every extent holds a block of the declared type that decodes completely and exactly within it, by the independent decoder and by the package reader; LowLevelSqw.write_array writes every element exactly once and in order for empty, small and larger-than-1-MiB arrays, to memory and to a file, in both byte orders (R4).',
         note='numpy tofile/tobytes/frombuffer/fromfile, struct and io are modelled (sa/sqwio.py); found and fixed F12 (string lengths declared in characters)', ref='8'),
     'C13': dict(
         level='other', technique='abstract round trip through the IR (symbolic model -> serializer -> registered parser) and through the abstract byte file (builder -> bytes -> independent decoder / package reader); the term domain tracks the unit bare numbers are expressed in',
